@@ -391,5 +391,8 @@ def _(c):
         == coordinator.endpoints[1].member_of + coordinator.endpoints[242].member_of
         and [r[1] for r in fx if r[0] == "call"][0].endswith("Multicast._initialize"),
     )
+    # subscribe / unsubscribe are proved for sequential histories (no other table operation runs while one is
+    # suspended): bellows itself must not start table operations concurrently
+    c.ensures("post.table_operations_one_at_a_time", lambda fx: [r for r in fx if r[0] == "asyncio.gather"] == [], on="any")
     c.ensures("post.scan_comes_first", lambda fx: implies(len([r for r in fx if r[0] == "call"]) > 0,
                                                           [r[1] for r in fx if r[0] == "call"][0].endswith("Multicast._initialize")), on="any")
